@@ -95,7 +95,32 @@ theorem enc_drop8 (s : Bytes) : (enc s).drop 8 = s := by
   unfold enc
   rw [show 8 = (be64 (w s.length)).length from (be64_length _).symm, List.drop_left]
 
-/-- The byte-level loop of `merge` on two encoded runs is the slice-level merge. -/
+/-- The *pure* merge loop (specification side): `left` and `right` are byte strings,
+the result is what gets stored from `start` on.  `mergeInPlace_eq` shows that the in-place
+loop of the model computes exactly this. -/
+def mergeLoop (less : Bytes → Bytes → Bool) (end_ : Nat) : Nat → Nat → Bytes → Bytes → Except Fault Bytes
+  | 0, _, _, _ => .error .fuel
+  | fuel + 1, start, left, right =>
+    if !mergeLoopCond (w start) (w end_) then .ok []
+    else if left.length == 0 then
+      if right.length ≤ end_ - start then .ok right else .error .assertFail
+    else if right.length == 0 then
+      if left.length ≤ end_ - start then .ok left else .error .assertFail
+    else
+      match rawSlice left, rawSlice right with
+      | .ok ls, .ok rs =>
+        if less (ls.drop 8) (rs.drop 8) then
+          match mergeLoop less end_ fuel (start + ls.length) (left.drop ls.length) right with
+          | .error f => .error f
+          | .ok out => .ok (ls ++ out)
+        else
+          match mergeLoop less end_ fuel (start + rs.length) left (right.drop rs.length) with
+          | .error f => .error f
+          | .ok out => .ok (rs ++ out)
+      | .error f, _ => .error f
+      | _, .error f => .error f
+
+/-- The pure byte-level loop on two encoded runs is the slice-level merge. -/
 theorem mergeLoop_enc (less : Bytes → Bytes → Bool) (end_ : Nat) (he : end_ < 2 ^ 62) :
     ∀ (L R : List Bytes) (fuel start : Nat),
       L.length + R.length < fuel →
@@ -171,5 +196,133 @@ theorem mergeLoop_enc (less : Bytes → Bytes → Bool) (end_ : Nat) (he : end_ 
       rw [List.drop_left, ← encAll_cons a l]
       rw [ih f (start + (enc c).length) (by simp at hf ⊢; omega) (by rw [enc_length]; omega)]
       simp [encAll_cons]
+
+theorem region_mid (p x q : Bytes) : region (p ++ x ++ q) p.length (p.length + x.length) = x := by
+  unfold region
+  rw [List.append_assoc, List.drop_left, show p.length + x.length - p.length = x.length by omega, List.take_left]
+
+theorem overwrite_mid (p x q y : Bytes) (h : y.length = x.length) :
+    overwrite (p ++ x ++ q) p.length y = p ++ y ++ q := by
+  unfold overwrite
+  have e1 : (p ++ x ++ q).take p.length = p := by rw [List.append_assoc, List.take_left]
+  have e2 : (p ++ x ++ q).drop (p.length + y.length) = q := by
+    rw [h, ← List.length_append, List.drop_left]
+  rw [e1, e2]
+
+theorem overwrite_prefix (p m y : Bytes) : overwrite (p ++ m) p.length y = p ++ y ++ m.drop y.length := by
+  unfold overwrite
+  rw [List.take_left, List.drop_length_add_append]
+
+theorem rawSlice_take (buf r : Bytes) (h : rawSlice buf = .ok r) : ∃ k, k ≤ buf.length ∧ r = buf.take k := by
+  unfold rawSlice at h
+  split at h
+  · cases h
+  · simp only at h
+    split at h
+    · rename_i hk; cases h; exact ⟨_, hk, rfl⟩
+    · cases h
+
+/-- The in-place loop equals the pure loop: with `|G| = |left|` bytes between the write
+cursor and the right run, no write ever reaches the unread part of the right run. -/
+theorem mergeInPlace_eq (less : Bytes → Bytes → Bool) : ∀ (fuel : Nat) (pre G right post left : Bytes),
+    G.length = left.length → pre.length + G.length + right.length < 2 ^ 62 →
+    mergeInPlace less (pre.length + G.length + right.length) fuel (pre ++ G ++ right ++ post) pre.length left
+        (pre.length + G.length) =
+      match mergeLoop less (pre.length + G.length + right.length) fuel pre.length left right with
+      | .ok out => .ok (pre ++ out ++ post)
+      | .error f => .error f := by
+  intro fuel
+  induction fuel with
+  | zero => intro pre G right post left _ _; rfl
+  | succ f ih =>
+    intro pre G right post left hG hb
+    unfold mergeInPlace mergeLoop
+    rw [k_mergeLoopCond _ _ (by omega) (by omega)]
+    by_cases hlt : pre.length < pre.length + G.length + right.length
+    · simp only [hlt, decide_true, Bool.not_true, Bool.false_eq_true, if_false]
+      have hreg : region (pre ++ G ++ right ++ post) (pre.length + G.length) (pre.length + G.length + right.length) = right := by
+        have := region_mid (pre ++ G) right post
+        rwa [List.length_append] at this
+      rw [hreg]
+      by_cases hl0 : left.length = 0
+      · have hG0 : G = [] := List.length_eq_zero_iff.mp (by omega)
+        have hleft : left = [] := List.length_eq_zero_iff.mp hl0
+        subst hG0 hleft
+        simp only [List.length_nil, beq_self_eq_true, if_true, Nat.add_zero, List.append_nil]
+        rw [if_pos (by omega), if_pos (by omega)]
+        simp only
+        rw [List.append_assoc, overwrite_prefix]
+        simp
+      · have hl0' : (left.length == 0) = false := by simpa using hl0
+        simp only [hl0', Bool.false_eq_true, if_false]
+        by_cases hr0 : right.length = 0
+        · have hright : right = [] := List.length_eq_zero_iff.mp hr0
+          subst hright
+          simp only [List.length_nil, beq_self_eq_true, if_true, Nat.add_zero, List.append_nil]
+          rw [if_pos (by omega), if_pos (by omega)]
+          simp only
+          rw [List.append_assoc, overwrite_prefix, ← hG, List.drop_left]
+        · have hr0' : (right.length == 0) = false := by simpa using hr0
+          simp only [hr0', Bool.false_eq_true, if_false]
+          cases hls : rawSlice left with
+          | error e => cases hrs : rawSlice right <;> simp
+          | ok ls =>
+            cases hrs : rawSlice right with
+            | error e => simp
+            | ok rs =>
+              simp only
+              obtain ⟨kl, hkl, rfl⟩ := rawSlice_take left ls hls
+              obtain ⟨kr, hkr, rfl⟩ := rawSlice_take right rs hrs
+              have hlenl : (left.take kl).length = kl := by rw [List.length_take]; omega
+              have hlenr : (right.take kr).length = kr := by rw [List.length_take]; omega
+              by_cases hless : less ((left.take kl).drop 8) ((right.take kr).drop 8) = true
+              · simp only [hless, if_true]
+                -- copyLeft
+                have hd1 : overwrite (pre ++ G ++ right ++ post) pre.length (left.take kl) =
+                    (pre ++ left.take kl) ++ G.drop kl ++ right ++ post := by
+                  rw [List.append_assoc, List.append_assoc, overwrite_prefix, hlenl]
+                  have : (G ++ (right ++ post)).drop kl = G.drop kl ++ (right ++ post) :=
+                    List.drop_append_of_le_length (by omega)
+                  rw [this]; simp
+                rw [hd1, hlenl]
+                have hpre1 : (pre ++ left.take kl).length = pre.length + kl := by rw [List.length_append, hlenl]
+                have hG1 : (G.drop kl).length = (left.drop kl).length := by
+                  rw [List.length_drop, List.length_drop, hG]
+                have hih := ih (pre ++ left.take kl) (G.drop kl) right post (left.drop kl) hG1
+                  (by rw [hpre1, List.length_drop]; omega)
+                have he : (pre ++ left.take kl).length + (G.drop kl).length + right.length =
+                    pre.length + G.length + right.length := by rw [hpre1, List.length_drop]; omega
+                have hr : (pre ++ left.take kl).length + (G.drop kl).length = pre.length + G.length := by
+                  rw [hpre1, List.length_drop]; omega
+                rw [he, hr, hpre1] at hih
+                rw [hih]
+                cases mergeLoop less (pre.length + G.length + right.length) f (pre.length + kl) (left.drop kl) right <;> simp
+              · have hless' : less ((left.take kl).drop 8) ((right.take kr).drop 8) = false := by simpa using hless
+                simp only [hless', Bool.false_eq_true, if_false]
+                -- copyRight: the source is read before the write (memmove)
+                have hd1 : overwrite (pre ++ G ++ right ++ post) pre.length (right.take kr) =
+                    (pre ++ right.take kr) ++ (G ++ right.take kr).drop kr ++ right.drop kr ++ post := by
+                  rw [List.append_assoc, List.append_assoc, overwrite_prefix, hlenr]
+                  have e1 : G ++ (right ++ post) = (G ++ right.take kr) ++ (right.drop kr ++ post) := by
+                    rw [List.append_assoc, ← List.append_assoc (right.take kr), List.take_append_drop]
+                  rw [e1, List.drop_append_of_le_length (by rw [List.length_append, hlenr]; omega)]
+                  simp
+                rw [hd1, hlenr]
+                have hpre1 : (pre ++ right.take kr).length = pre.length + kr := by rw [List.length_append, hlenr]
+                have hG1 : ((G ++ right.take kr).drop kr).length = left.length := by
+                  rw [List.length_drop, List.length_append, hlenr, hG]; omega
+                have hih := ih (pre ++ right.take kr) ((G ++ right.take kr).drop kr) (right.drop kr) post left hG1
+                  (by rw [hpre1, hG1, List.length_drop]; omega)
+                have he : (pre ++ right.take kr).length + ((G ++ right.take kr).drop kr).length + (right.drop kr).length =
+                    pre.length + G.length + right.length := by rw [hpre1, hG1, List.length_drop]; omega
+                have hr : (pre ++ right.take kr).length + ((G ++ right.take kr).drop kr).length =
+                    pre.length + G.length + kr := by rw [hpre1, hG1]; omega
+                rw [he, hr, hpre1] at hih
+                rw [hih]
+                cases mergeLoop less (pre.length + G.length + right.length) f (pre.length + kr) left (right.drop kr) <;> simp
+    · have hG0 : G = [] := List.length_eq_zero_iff.mp (by omega)
+      have hr0 : right = [] := List.length_eq_zero_iff.mp (by omega)
+      subst hG0 hr0
+      simp
 
 end RV.Buffer
